@@ -1,6 +1,7 @@
 """C02 - no look-ahead (DESIGN §7 C02)."""
 from shell import c02
 
+from shell import replayers
 ID = "C02"
 LEVEL = "other"
 FUNCTIONS = ["Exchange.process_EventNBBO", "body:Transmitter._create_partitions#0"]
@@ -12,3 +13,8 @@ LEVEL_TEXT = ("Two-run property. Bounded shell: every cut t of seeded streams, l
 EXPLANATION = LEVEL_TEXT
 NOT_DEDUCTIVE = ["second sentence (tabular API): TradingEnvXY.__init__/_make_timesteps are pandas/scikit-learn/market-calendar pipelines (A5): bounded shell only",
                  "non-interference composition over steps (A10): argued from the partition-slot and frame obligations"]
+
+REPLAYERS = [
+    ("Transmitter._create_partitions::loop0::body", replayers.partition_slot),
+    ("Exchange.process_Event", replayers.exchange_event),
+]
